@@ -31,7 +31,7 @@ import (
 )
 
 var weights = tmrun.Weights{Strp: 30, Strpc: 8, Sett: 8, Settc: 6, Gts: 18, Inc: 18, Conv: 8, Stop: 6, TwoLayouts: 15,
-	SC: 22, TailElse: 35, TailUncond: 8, HeadUncond: 25, Dim: 40, Panic: 25}
+	SC: 22, TailElse: 35, TailUncond: 8, HeadUncond: 25, Dim: 40, Panic: 25, SM: 35}
 
 // gcChance: percent of the lines before which a live label set is removed from outside the VM.
 const gcChance = 25
@@ -115,6 +115,15 @@ func classify(hist [][]tmrun.Event, evs []tmrun.Event, setsDiffer bool) string {
 			return "label-lookup-state-leak" // `del ... after` fails when the label set is not found
 		}
 	}
+	smEmpty, sm := false, false
+	for _, e := range evs {
+		if e.K == "match" && e.Sm {
+			sm = true
+			if e.Value == "" {
+				smEmpty = true
+			}
+		}
+	}
 	for _, e := range evs {
 		switch e.K {
 		case "match":
@@ -127,8 +136,14 @@ func classify(hist [][]tmrun.Event, evs []tmrun.Event, setsDiffer bool) string {
 			strp = true
 		}
 	}
+	if smEmpty {
+		return "smatch-state-leak" // `=~` / `!~` on an empty operand came out differently
+	}
 	if strp {
 		return "strptime-memo-leak"
+	}
+	if sm {
+		return "smatch-state-leak"
 	}
 	return "cross-line-state-leak"
 }
@@ -372,6 +387,25 @@ func main() {
 			if c.Prog.HasDim() {
 				out.Count("kind/" + c.Kind + "/dimensioned")
 			}
+			if c.Prog.HasSM() {
+				out.Count("kind/" + c.Kind + "/smatch")
+			}
+			for _, l := range c.Events {
+				for _, e := range l {
+					if e.K == "match" && e.Sm {
+						if e.Value == "" {
+							out.Count("smatch/empty-operand")
+						} else {
+							out.Count("smatch/non-empty-operand")
+						}
+					}
+				}
+			}
+			for _, l := range c.Lines {
+				if l == "" {
+					out.Count("empty-line")
+				}
+			}
 			if c.Prog.HasPanic() {
 				out.Count("kind/" + c.Kind + "/panicking-instruction")
 			}
@@ -469,6 +503,37 @@ func main() {
 		{Tag: "GET", Arg: tmrun.ArgInt, Acts: []tmrun.Action{{K: "conv", M: "n0"}, {K: "gts", M: "g0"}, {K: "inc", M: "c2"}}}}},
 		0, false, []string{"GET 100", "H", "GET 100", "H", "H", "GET 7", "Z", "H", "Z", "GET 5"}, noGc, 2))
 
+	// `=~` / `!~` (the Smatch instruction) on a capture that can be empty, over
+	// regexps that do and do not match the empty string: the empty operand as the
+	// very first evaluation, and after a non-empty one; and the empty LINE
+	for _, first := range []string{"", "bob"} {
+		for _, arg := range []int{tmrun.ArgSmW, tmrun.ArgSmOpt, tmrun.ArgSmLine} {
+			var st []tmrun.Stmt
+			for k, in := range tmrun.InnerRegexps {
+				s := tmrun.Stmt{Kind: "sm", Tag: "S", Arg: arg, Lit: in.Re, Neg: k%3 == 2,
+					Acts: []tmrun.Action{{K: "inc", M: []string{"c0", "c1", "c2"}[k%3]}}}
+				if k == 0 {
+					s.Pre = []tmrun.Action{{K: "inc", M: "c2"}}
+				}
+				if in.D && !s.Neg && k == 7 {
+					s.Acts = append(s.Acts, tmrun.Action{K: "conv", M: "n0"})
+				}
+				st = append(st, s)
+			}
+			mk := func(op string) string {
+				switch {
+				case arg == tmrun.ArgSmLine:
+					return op
+				case arg == tmrun.ArgSmOpt && op == "":
+					return "S;"
+				}
+				return "S u=" + op + ";"
+			}
+			add(runOne(tmrun.Prog{Stmts: st}, 0, false,
+				[]string{mk(first), mk(""), mk("guest"), mk(""), mk("42"), mk("42"), mk(""), mk("aaa"), mk("x"), mk("")}, noGc, 2))
+		}
+	}
+
 	nprog := 190
 	if a.Thorough() {
 		nprog = 3000
@@ -477,6 +542,9 @@ func main() {
 	for i := 0; i < nprog; i++ {
 		p := tmrun.GenProg(rng, weights)
 		pool := tmrun.LinePool(rng, p)
+		if rng.Chance(30) {
+			pool = append(pool, "") // the empty line
+		}
 		n := 3 + rng.Intn(10)
 		lines := make([]string, n)
 		for j := range lines {
@@ -504,7 +572,7 @@ func main() {
 		add(r)
 	}
 	out.Extra["programs_rejected_by_compiler"] = compileErrs
-	out.Flush("a case is a generated program (strptime/settime/timestamp()/stop/failing int(); 40% also with one or two metrics with two keys: x[$1][$2]++, = int($3), = timestamp(), del, del after; 25% also with `/^H$/ { h0++ }` on a histogram, an instruction that panics in the VM and is recovered) run on the real VM over a history of 3-12 lines drawn with repetition from a pool of parsing, non-parsing and cross-layout payloads and of label tuples that coincide under naive joining, with live label sets removed from outside the VM before a quarter of the lines; or one line on a fresh VM preset to the metrics reached; non-trivial when a line with events follows a line that parsed the same value, failed, stopped or raised a runtime error, or names a label set that an earlier line named or that was removed from outside", false)
+	out.Flush("a case is a generated program (strptime/settime/timestamp()/stop/failing int(); 40% also with one or two metrics with two keys: x[$1][$2]++, = int($3), = timestamp(), del, del after; 35% also with `$u =~ /re/ { }` / `!~` on a capture that can be empty, over regexps that do and do not match the empty string; 25% also with `/^H$/ { h0++ }` on a histogram, an instruction that panics in the VM and is recovered) run on the real VM over a history of 3-12 lines drawn with repetition from a pool of parsing, non-parsing and cross-layout payloads and of label tuples that coincide under naive joining, with live label sets removed from outside the VM before a quarter of the lines; or one line on a fresh VM preset to the metrics reached; non-trivial when a line with events follows a line that parsed the same value, failed, stopped or raised a runtime error, or names a label set that an earlier line named or that was removed from outside", false)
 }
 
 func replay(path string) {
